@@ -155,6 +155,11 @@ pub struct WPlan {
     /// nothing (a writer is free to do so; code that relies on a later flush to surface an
     /// earlier write error loses it)
     pub flush_ok_after_write_fault: bool,
+    /// "transient": only the ONE write call that meets the fault fails; every later write and
+    /// flush succeeds again (EAGAIN / a disk that was full for a moment). Code that goes on
+    /// writing after a failed write leaves bytes in the writer that are not a prefix of the
+    /// fault-free output — with a sticky fault those later calls would fail and leave no trace.
+    pub transient: bool,
     pub fault_id: u32,
     pub kind: Option<ErrorKind>,
 }
@@ -244,6 +249,8 @@ impl Write for SimWriter {
         s.calls += 1;
         if s.hard_fired {
             s.calls_after_hard += 1;
+        }
+        if s.hard_fired && !(s.plan.transient && !s.hard_on_flush) {
             s.note(b'x', buf.len(), 0);
             return Err(sim_io_error(
                 s.plan.fault_id,
@@ -255,7 +262,7 @@ impl Write for SimWriter {
             return Ok(0);
         }
         let mut room = usize::MAX;
-        if let Some(off) = s.plan.fail_at {
+        if let Some(off) = s.plan.fail_at.filter(|_| !s.hard_fired) {
             if s.accepted.len() >= off {
                 s.hard_fired = true;
                 s.hard_on_flush = false;
@@ -287,7 +294,7 @@ impl Write for SimWriter {
     fn flush(&mut self) -> io::Result<()> {
         let mut s = self.0.lock().unwrap();
         s.flushes += 1;
-        if s.hard_fired && !s.hard_on_flush && s.plan.flush_ok_after_write_fault {
+        if s.hard_fired && !s.hard_on_flush && (s.plan.flush_ok_after_write_fault || s.plan.transient) {
             s.calls_after_hard += 1;
             s.note(b'f', 0, 0);
             return Ok(());
